@@ -191,8 +191,10 @@ package shellfuncsfile
 //@   loop 1 counter k
 //@     invariant own_array: !sameArray(leadCommentLines, lines)
 //@     invariant run_so_far: len(leadCommentLines) == k && k <= len(lines) && forall(j, 0 <= j && j < k, leadCommentLines[j] == lines[j] && strings.HasPrefix(lines[j], "#")) && nJoin == 0 && nTrim == 1 && nSplit == 1
+//@   after "loop 2": assert(start == len(leadCommentLines) || !(strings.HasPrefix(leadCommentLines[start], "#!") || leadCommentLines[start] == "#"), "kept_comments_start_at_the_first_line_that_is_neither_a_shebang_nor_a_bare_hash")
 //@   loop 2 counter i
 //@     invariant skipping: 0 <= start && start <= i && start <= len(leadCommentLines) && nJoin == 0
+//@     invariant only_the_initial_shebang_and_bare_hash_lines_are_dropped: start == i && forall(j, 0 <= j && j < i, strings.HasPrefix(leadCommentLines[j], "#!") || leadCommentLines[j] == "#")
 //@   loop 3 counter i
 //@     invariant blanked_so_far: !brk && nJoin == 0 && forall(j, 0 <= j && j < i, (lines[j] == "" && strings.HasPrefix(pre("3", lines[j]), "#")) || (lines[j] == "\n" && pre("3", lines[j]) == "\n")) && forall(j, i <= j && j < len(lines), lines[j] == pre("3", lines[j]))
 //@   ensures empty_is_empty: imp(len(rawPerl) == 0, leadComments == "" && perl == "")
